@@ -1,0 +1,15 @@
+//go:build verif
+
+package bech32
+
+// Exports for the verification harness (build tag "verif").
+
+func VerifPolymod(values []int) int { return bech32Polymod(values) }
+
+func VerifHrpExpand(hrp string) []int { return bech32HrpExpand(hrp) }
+
+func VerifChecksum(hrp string, data []byte) []byte { return bech32Checksum(hrp, data) }
+
+func VerifCharset() string { return charset }
+
+func VerifGen() []int { return gen }
